@@ -204,16 +204,13 @@ func (p *Parser) Parse() (*Nexus, error) {
 					return nil, err2
 				}
 			}
-			// We check that tax labels are the same as tree taxa
+			// We check that the taxa of the tree are defined in TAXLABELS (a tree may hold a subset of them)
 			if taxlabels != nil {
 				tips := t.Tips()
 				for _, tip := range tips {
 					if _, ok := taxlabels[tip.Name()]; !ok {
 						return nil, fmt.Errorf("Taxa name %s in the tree %d is not defined in the TAXLABELS block", tip.Name(), i)
 					}
-				}
-				if len(tips) != len(taxlabels) {
-					return nil, fmt.Errorf("Some tax names defined in TAXLABELS are not present in the tree %d", i)
 				}
 			}
 			//t.ReinitIndexes()
